@@ -440,7 +440,7 @@ func TestC11(t *testing.T) {
 	nest := c11Model.On(col, "rapid: random nestings of for/tablerow loops (depth <= 3) with conditionals, grouped and ungrouped cycles, break/continue, assigns, over arrays (random Go representation), ranges and one-entry maps; oracle: reference model (cycle round-robin per loop execution and group; jumps affect the innermost loop only). Non-trivial: specified expected output and at least one loop; distinct by template+bindings", false)
 	prof := hx.FullProfile()
 	prof.Tablerow, prof.Capture, prof.Comment, prof.Raw, prof.Case = true, false, false, false, false
-	prof.MaxNodes = 16
+	prof.MaxNodes, prof.LoopRecord = 16, true
 	col.Rapid(nest.Sub, env.PerShard(env.Pick(150000, 1500000)), func(t *rapid.T) {
 		p := hx.GenProgram(t, prof)
 		for _, name := range []string{"a", "w"} {
